@@ -269,7 +269,7 @@ func verifSendCfg(withBody, withRetry, allConfigs, seeker bool) {
 	maxRetries := verif.Bound("max_retries", 2, 3)
 	if seeker {
 		nmethods = verif.Bound("methods_seeker_body", 1, 2)
-		maxRetries = verif.Bound("max_retries_seeker_body", 2, 2)
+		maxRetries = verif.Bound("max_retries_seeker_body", 2, 3)
 	} else if withBody && withRetry { // the largest product: keep its thorough tier affordable
 		nmethods = verif.Bound("methods_with_body_and_retries", 1, 2)
 		maxRetries = verif.Bound("max_retries_with_body", 2, 2)
@@ -409,7 +409,10 @@ func VerifSendBodyNoRetry() { verifSend(true, false, true) }
 // and resets in the middle of the upload, and the https->http fallback, must
 // all resend the stream from that offset to its end.
 func VerifSendSeekerBodyRetry() {
-	verifSendCfg(true, true, verif.Bound("all_code_sets_with_seeker_bodies", 0, 1) == 1, true)
+	// default code sets only: the code-set logic does not depend on the body
+	// kind and is covered with all sets by the other harnesses (with all nine
+	// combinations the thorough tier does not close within its 15 minutes)
+	verifSendCfg(true, true, false, true)
 }
 
 // VerifFindingSendBodyRetry: requests with a body and a retry budget (see
